@@ -48,6 +48,9 @@ func init() {
 	})
 	tok := RepoModule + "/tokens."
 	reg(tok+"serializeMacaroon", func(e *Engine, st *State, args []Value, fn *ssa.Function) []Outcome {
+		if e.cfg.RealTokenCodec {
+			return e.mergeOutcomes(e.execFunction(fn, args, nil, st))
+		}
 		e.rep.noteStub(tok + "serializeMacaroon (ideal codec)")
 		e.cryptoCounter++
 		name := "vp-token-" + strconv.Itoa(e.cryptoCounter)
@@ -55,6 +58,9 @@ func init() {
 		return []Outcome{e.errTuple(st, e.StrConst(name), nil)}
 	})
 	reg(tok+"deSerializeMacaroon", func(e *Engine, st *State, args []Value, fn *ssa.Function) []Outcome {
+		if e.cfg.RealTokenCodec {
+			return e.mergeOutcomes(e.execFunction(fn, args, nil, st))
+		}
 		e.rep.noteStub(tok + "deSerializeMacaroon (ideal codec)")
 		s := args[0].(*StrV)
 		zero := e.zero(fn.Signature.Results().At(0).Type())
